@@ -698,7 +698,7 @@ pub fn run<'tcx>(tcx: TyCtxt<'tcx>) -> String {
     let mut sites = Vec::new();
     for (k, s) in &rn.ip.sites {
         sites.push(jobj! {
-            "key" => J::s(k.clone()), "inst" => J::s(s.inst.clone()), "kind" => J::s(s.kind.clone()), "msg" => J::s(s.msg.clone()),
+            "key" => J::s(k.clone()), "inst" => J::s(s.inst.clone()), "kind" => J::s(s.kind.clone()), "msg" => J::s(s.msg.clone()), "shape" => J::s(s.shape.clone()),
             "site" => J::s(s.site.clone()), "visits" => J::i(s.visits as i128), "violated" => J::Bool(s.violated),
             "witness" => J::s(s.witness.clone()), "roots" => J::arr_s(s.roots.iter().cloned()),
             "ctxs" => J::arr_s(s.ctxs.iter().cloned()),
